@@ -18,6 +18,7 @@ import (
 	"github.com/DataDog/datadog-traceroute/cache"
 	"github.com/DataDog/datadog-traceroute/cmd"
 	ddlog "github.com/DataDog/datadog-traceroute/log"
+	"github.com/DataDog/datadog-traceroute/packets"
 	"github.com/DataDog/datadog-traceroute/publicip"
 	"github.com/DataDog/datadog-traceroute/result"
 	"github.com/DataDog/datadog-traceroute/reversedns"
@@ -66,8 +67,10 @@ type RTScn struct {
 	LingerMs int `json:"linger_ms,omitempty"`
 	// Overlap: a sibling request overlaps this one on the same Traceroute value (the HTTP server keeps one for all its
 	// requests); the sibling asks for the same thing except that it does NOT ask for private hops to be skipped
-	Overlap  bool   `json:"overlap,omitempty"`
-	RawQuery string `json:"raw_query,omitempty"`
+	Overlap bool `json:"overlap,omitempty"`
+	// MustClosePort: see Scn.MustClosePort
+	MustClosePort bool   `json:"must_close_port,omitempty"`
+	RawQuery      string `json:"raw_query,omitempty"`
 
 	// the world
 	Dest            int               `json:"dest"` // TTL from which the target answers (0 = never)
@@ -262,6 +265,7 @@ func runRT(cfg vsched.Config, sc *RTScn, twice bool) *RTResult {
 	}
 	simnet.Install()
 	vnet.Blackhole, vnet.Dials = nil, 0
+	packets.VerifMustClosePort = sc.MustClosePort
 	if sc.TraceLog {
 		// the embedding process logs at trace level (the CLI's -v, the server's log-level setting): lazily built trace
 		// messages are evaluated. The text goes to the standard logger, which is silenced for good in this worker.
@@ -292,6 +296,11 @@ func runRT(cfg vsched.Config, sc *RTScn, twice bool) *RTResult {
 			spec.Timestamps, spec.BSDOrder = true, true
 		case "bsd-option-order":
 			spec.BSDOrder = true
+		case "ecn-setup-synack":
+			// the target negotiates ECN: its SYN-ACK carries ECE next to SYN and ACK
+			spec.ECN = true
+		case "ecn-setup-synack-without-sack":
+			spec.ECN, spec.SackPermitted = true, false
 		case "duplicate-synack":
 			spec.LateCopyMs = 15
 		case "isn-near-wrap":
